@@ -35,7 +35,8 @@ func symCall(n int) string {
 
 // C19 K2: component fidelity
 func H_c19_components() {
-	scheme := [...]string{"ax25", "ardop", "serial-tnc", "telnet", "ax25+agwpe"}[symInt(0, symParam("SCHEMES", 3)-1)]
+	// every scheme a dialer of this repository accepts, plus one an application registers itself
+	scheme := [...]string{"ax25", "ardop", "agwpe+ax25", "telnet", "myscheme", "serial-tnc", "ax25+agwpe", "ax25+linux", "ax25+serial-tnc"}[symInt(0, symParam("SCHEMES", 5)-1)]
 	hasUser := symInt(0, 1) == 1
 	hasPass := hasUser && symInt(0, 1) == 1
 	hasHost := symInt(0, 1) == 1
